@@ -206,6 +206,40 @@ claim('C10',
       'evaluation',
       'DESIGN.md section 4 C10')
 
+claim('C01',
+      'Decides, for all programs and layouts at once, that the token '
+      'minifier neither loses, duplicates nor fuses tokens: the writer is '
+      'extracted as a finite transducer (every reachable class x state pair '
+      'enumerated) and the separator function read off it is checked, by an '
+      'exhaustive product search over the implementation\'s own lexer '
+      'automaton, for every grammar-adjacent ordered pair of token classes, '
+      'all spellings and all continuations; plus newline preservation '
+      'between code tokens, option wiring and the sanity re-parse ordering.',
+      'Decided: one chunk per code token with identity/short-name dataflow, '
+      'line-end preservation, no-glue for all adjacent pairs (empty product '
+      '= proof; non-empty = shortest witness). Not decided: that the re-lexed '
+      'output equals the input token list for a concrete program (follows '
+      'from the rules only under the assumption that the lexer is right, '
+      'C07); block comments or long strings containing newlines between a '
+      'short-if and the next statement. Trusted: refs/grammar.py adjacency.',
+      'static analysis: abstract interpretation of the writer loop to a '
+      'finite transducer, grammar terminal-adjacency (FIRST/LAST), product '
+      'automaton search',
+      'DESIGN.md section 4 C01, Appendix A.1')
+claim('C19',
+      'Decides on the extracted minifier transducer that the first two '
+      'leading comments are emitted verbatim, each followed by a line end, '
+      'before anything else, that later comments emit nothing, that the '
+      'header size agrees with the token positions get_title/get_byline '
+      'read, and (product search) that no adjacent token pair can fuse into '
+      'a comment.',
+      'Decided: the structural conditions above for all header shapes '
+      '(states are enumerated exhaustively). Not decided: what PICO-8 itself '
+      'derives from the two lines.',
+      'static analysis: finite transducer extraction + exhaustive state '
+      'enumeration + product automaton search',
+      'DESIGN.md section 4 C19')
+
 
 def main():
     props = []
